@@ -7,19 +7,20 @@
 (*             expected contents of both tables, expected observable state of every iterator); tables unchanged*)
 (*    Exec:    the call takes effect, last = [op |-> "-"] again.                                              *)
 (* tools/pathcover.py covers every edge, hence every (state, call, arguments) of MapAbs; the replayer skips   *)
-(* the "-" records.  Only used with Sorted = "none" (every call has exactly one outcome).                      *)
+(* the "-" records.  Used with instances in which every call has exactly one outcome: Sorted = "none", or a   *)
+(* sorting class without ties (PutVals = "key").                                                               *)
 EXTENDS MapAbs
 
 Idle == [op |-> "-"]
-GenInit == /\ tbl = <<>> /\ oth = <<>> /\ its = [i \in ItIds |-> NoIt] /\ last = Idle
+GenInit == /\ tbl = <<>> /\ oth = <<>> /\ its = [i \in ItIds |-> NoIt] /\ last = Idle /\ ord = Ord0
 
 Choose == /\ last = Idle
           /\ \E op \in Ops : \E x \in Args(op) : \E r \in Outcomes(op, x[1], x[2], x[3], <<>>, <<>>) : last' = Rec(op, x[1], x[2], x[3], r)
-          /\ UNCHANGED <<tbl, oth, its>>
+          /\ UNCHANGED <<tbl, oth, its, ord>>
 Exec   == /\ last # Idle
           /\ \E r \in Outcomes(last.op, last.a, last.b, last.c, <<>>, <<>>) :
                 /\ Rec(last.op, last.a, last.b, last.c, r) = last
-                /\ tbl' = r.t /\ oth' = r.o /\ its' = r.its
+                /\ tbl' = r.t /\ oth' = r.o /\ its' = r.its /\ ord' = r.ord
           /\ last' = Idle
 GenNext == Choose \/ Exec
 GenSpec == GenInit /\ [][GenNext]_vars
